@@ -86,11 +86,15 @@ func (e *c05Err) spec() *ErrSpec {
 	return nil
 }
 
+// texts whose JSON encoding needs escapes a Go string literal spells differently (relayed compiler / CLI output
+// with ANSI colours, NUL, DEL, BEL, line separators, astral runes): the envelope must still parse and carry them
+var c05OddTexts = []string{"\x1b[31mred\x1b[0m", "nul\x00byte", "del\x7f", "bell\a tab\t nl\n cr\r quote\" back\\", "sep\u2028\u2029", "astral \U0001F600 \U000E0001", "\x01\x02\x1f"}
+
 var c05Paths = []string{"direct", "pipe_unary", "http_unary", "pipe_init", "http_init", "pipe_produce", "pipe_exchange", "http_exchange", "http_produce"}
 
 func c05Leaf(r *rand.Rand, handlerOnly bool) *c05Err {
-	msgs := []string{"boom", "", "bad value: x", "unicode é", "Type: looks like one"}
-	types := []string{"ValueError", "TypeError", "PermissionError", "RuntimeError", "MyCustomError", "", "*errors.errorString"}
+	msgs := append([]string{"boom", "", "bad value: x", "unicode é", "Type: looks like one"}, c05OddTexts...)
+	types := []string{"ValueError", "TypeError", "PermissionError", "RuntimeError", "MyCustomError", "", "*errors.errorString", "Esc\x1bType"}
 	kinds := []string{"", "", "my_kind", "session_lost"}
 	n := 9
 	if handlerOnly {
@@ -138,6 +142,17 @@ func c05Gen(r *rand.Rand, n int, tier string) []c05In {
 			}
 		}
 	}
+	// control and other escape-needing characters in message and type, debug on and off, directly and end to end
+	for _, txt := range c05OddTexts {
+		for _, dbg := range []bool{false, true} {
+			for _, p := range []string{"direct", "pipe_unary", "http_unary", "http_exchange"} {
+				out = append(out, c05In{Path: p, Debug: dbg, Err: &c05Err{Ctor: "rpc", A: "ValueError", B: txt, C: ""}})
+			}
+			out = append(out, c05In{Path: "direct", Debug: dbg, Err: &c05Err{Ctor: "plain", A: txt}})
+			out = append(out, c05In{Path: "pipe_unary", Debug: dbg, Panic: "str:" + txt})
+		}
+	}
+	out = append(out, c05In{Path: "pipe_unary", Debug: false, Err: &c05Err{Ctor: "rpc", A: "Esc\x1bType", B: "m", C: ""}})
 	// every dispatch path x every handler-raisable kind and panic value
 	for _, p := range c05Paths[1:] {
 		for _, e := range []*c05Err{{Ctor: "rpc", A: "ValueError", B: "bad", C: ""}, {Ctor: "rpc", A: "MyErr", B: "m", C: "my_kind"}, {Ctor: "plain", A: "boom"},
